@@ -235,6 +235,237 @@ def literal_alternatives(pattern):
     return None if e is None else set(e)
 
 
+# ---- backtracking facts: no ambiguous nested quantifier ------------------------------------------
+
+_CAT_RE = {"CATEGORY_DIGIT": r"\d", "CATEGORY_NOT_DIGIT": r"\D", "CATEGORY_SPACE": r"\s", "CATEGORY_NOT_SPACE": r"\S",
+           "CATEGORY_WORD": r"\w", "CATEGORY_NOT_WORD": r"\W", "CATEGORY_LINEBREAK": r"\n", "CATEGORY_NOT_LINEBREAK": r"[^\n]"}
+
+
+def _sample_alphabet(tree_items):
+    chars = set(chr(i) for i in range(0, 128)) | set("\u00e9\u00b7\u0663\u2028\u3000\ufb01\u00a0\u0301\U0001d7ce")
+
+    def walk(items):
+        for op, av in items:
+            nm = str(op)
+            if nm in ("LITERAL", "NOT_LITERAL"):
+                chars.add(chr(av))
+            elif nm == "RANGE":
+                chars.update((chr(av[0]), chr(av[1]), chr(min(av[1], av[0] + 1))))
+            elif nm == "IN":
+                walk(av)
+            elif nm == "SUBPATTERN":
+                walk(list(av[3]))
+            elif nm == "BRANCH":
+                for a in av[1]:
+                    walk(list(a))
+            elif nm in ("MAX_REPEAT", "MIN_REPEAT", "POSSESSIVE_REPEAT"):
+                walk(list(av[2]))
+            elif nm in ("ASSERT", "ASSERT_NOT"):
+                walk(list(av[1]))
+            elif nm == "ATOMIC_GROUP":
+                walk(list(av))
+    walk(tree_items)
+    return sorted(chars)
+
+
+def _char_matches(op, av, ch, flags):
+    """does the single-character item (op, av) accept ch?"""
+    nm = str(op)
+    fold = bool(flags & re.IGNORECASE)
+    if nm == "LITERAL":
+        return chr(av) == ch or (fold and chr(av).lower() == ch.lower())
+    if nm == "NOT_LITERAL":
+        return not (chr(av) == ch or (fold and chr(av).lower() == ch.lower()))
+    if nm == "ANY":
+        return bool(flags & re.DOTALL) or ch != "\n"
+    if nm == "CATEGORY":
+        return re.fullmatch(_CAT_RE[str(av)], ch, flags & (re.ASCII | re.UNICODE)) is not None
+    if nm == "RANGE":
+        alts = [ch] + ([x for x in (ch.lower(), ch.upper()) if len(x) == 1] if fold else [])
+        return any(av[0] <= ord(x) <= av[1] for x in alts)
+    if nm == "IN":
+        items = list(av)
+        neg = bool(items) and str(items[0][0]) == "NEGATE"
+        if neg:
+            items = items[1:]
+        hit = any(_char_matches(o, a, ch, flags) for o, a in items)
+        return hit != neg
+    raise FactUnknown(f"single-character item {nm}")
+
+
+_SINGLE = ("LITERAL", "NOT_LITERAL", "ANY", "IN")
+
+
+def _item_minwidth(op, av):
+    nm = str(op)
+    if nm in _SINGLE:
+        return 1
+    if nm in ("AT", "ASSERT", "ASSERT_NOT"):
+        return 0
+    if nm == "SUBPATTERN":
+        return sum(_item_minwidth(o, a) for o, a in av[3])
+    if nm == "ATOMIC_GROUP":
+        return sum(_item_minwidth(o, a) for o, a in av)
+    if nm == "BRANCH":
+        return min(sum(_item_minwidth(o, a) for o, a in alt) for alt in av[1])
+    if nm in ("MAX_REPEAT", "MIN_REPEAT", "POSSESSIVE_REPEAT"):
+        return av[0] * sum(_item_minwidth(o, a) for o, a in av[2])
+    if nm == "GROUPREF":
+        return 0
+    raise FactUnknown(f"regex construct {nm}")
+
+
+def _first_chars(items, alphabet, flags):
+    """characters that can be the first character consumed by the sequence `items`"""
+    out = set()
+    for op, av in items:
+        nm = str(op)
+        if nm in _SINGLE:
+            out |= {c for c in alphabet if _char_matches(op, av, c, flags)}
+        elif nm == "SUBPATTERN":
+            out |= _first_chars(list(av[3]), alphabet, flags)
+        elif nm == "ATOMIC_GROUP":
+            out |= _first_chars(list(av), alphabet, flags)
+        elif nm == "BRANCH":
+            for alt in av[1]:
+                out |= _first_chars(list(alt), alphabet, flags)
+        elif nm in ("MAX_REPEAT", "MIN_REPEAT", "POSSESSIVE_REPEAT"):
+            out |= _first_chars(list(av[2]), alphabet, flags)
+        elif nm in ("AT", "ASSERT", "ASSERT_NOT"):
+            pass
+        elif nm == "GROUPREF":
+            return set(alphabet)
+        else:
+            raise FactUnknown(f"regex construct {nm}")
+        if _item_minwidth(op, av) > 0:
+            break
+    return out
+
+
+def _is_var_repeat(op, av):
+    nm = str(op)
+    if nm not in ("MAX_REPEAT", "MIN_REPEAT"):
+        return False  # possessive repeats / atomic groups do not backtrack into their body
+    lo, hi, body = av
+    return (hi is sre_c.MAXREPEAT or hi > 1) and lo != hi and sum(_item_minwidth(o, a) for o, a in body) >= 0
+
+
+def _tail_repeats(items):
+    """variable repeats that can be the LAST consuming element of the sequence (everything after them may be empty)"""
+    out = []
+    for op, av in reversed(list(items)):
+        nm = str(op)
+        if _is_var_repeat(op, av):
+            out.append((op, av))
+            out += _tail_repeats(list(av[2]))
+        elif nm == "SUBPATTERN":
+            out += _tail_repeats(list(av[3]))
+        elif nm == "BRANCH":
+            for alt in av[1]:
+                out += _tail_repeats(list(alt))
+        elif nm in ("MAX_REPEAT", "MIN_REPEAT") and av[1] == 1:
+            out += _tail_repeats(list(av[2]))  # optional group
+        if _item_minwidth(op, av) > 0:
+            break
+    return out
+
+
+def ambiguous_nested_repeats(pattern):
+    """-> list of descriptions of nested quantifiers `(... Q ...)*` in which a run of one character class can be divided
+    between the inner repeat Q and further iterations of the outer repeat (the shape that makes a backtracking matcher
+    take exponentially many steps on a non-matching input).  Sound for the shapes it knows (FactUnknown otherwise);
+    character overlap is decided on ASCII + the pattern's own literals + a few non-ASCII representatives."""
+    tree = sre_parse.parse(pattern.pattern, pattern.flags)
+    flags = pattern.flags
+    alphabet = _sample_alphabet(list(tree))
+    found = []
+
+    def visit(items):
+        for op, av in items:
+            nm = str(op)
+            if nm in ("MAX_REPEAT", "MIN_REPEAT", "POSSESSIVE_REPEAT"):
+                lo, hi, body = av
+                body = list(body)
+                if nm != "POSSESSIVE_REPEAT" and (hi is sre_c.MAXREPEAT or hi > 1):
+                    first = _first_chars(body, alphabet, flags)
+                    if sum(_item_minwidth(o, a) for o, a in body) == 0 and (hi is sre_c.MAXREPEAT):
+                        found.append("an unbounded repeat whose body can match the empty string")
+                    for qop, qav in _tail_repeats(body):
+                        inner_first = _first_chars(list(qav[2]), alphabet, flags)
+                        common = first & inner_first
+                        if common:
+                            ex = sorted(common)[:3]
+                            found.append(f"a repeat inside a repeat: the inner repeat can end an iteration of the outer one and both continue with {ex!r}")
+                    # alternatives of a branch directly repeated that start with a common character and are not prefix-free singletons
+                    for bop, bav in body:
+                        if str(bop) == "BRANCH" and len(body) == 1:
+                            alts = [list(a) for a in bav[1]]
+                            for i in range(len(alts)):
+                                for j in range(i + 1, len(alts)):
+                                    ci = _first_chars(alts[i], alphabet, flags) & _first_chars(alts[j], alphabet, flags)
+                                    if ci and not (len(alts[i]) == 1 and len(alts[j]) == 1 and str(alts[i][0][0]) in _SINGLE and str(alts[j][0][0]) in _SINGLE and False):
+                                        found.append(f"repeated alternatives that can both start with {sorted(ci)[:3]!r}")
+                visit(body)
+            elif nm == "SUBPATTERN":
+                visit(list(av[3]))
+            elif nm == "BRANCH":
+                for alt in av[1]:
+                    visit(list(alt))
+            elif nm in ("ASSERT", "ASSERT_NOT"):
+                visit(list(av[1]))
+            elif nm == "ATOMIC_GROUP":
+                visit(list(av))
+
+    visit(list(tree))
+    return found
+
+
+def native_regex_hang(w=None, limit=8):
+    """native replay: load adversarial sources (an unterminated literal / run followed by n more characters) in a
+    subprocess with a time limit; the regex engine cannot be interrupted from Python"""
+    import subprocess
+    cfg = (w or {}).get("config", "default") if isinstance(w, dict) else "default"
+    if cfg not in CONFIGS:
+        cfg = "default"
+    env = make_env(cfg)
+    vs, bs, be = env.variable_start_string, env.block_start_string, env.block_end_string
+    runs = ["a" * 40, "1" * 40, "1_" * 30, " " * 60, "a " * 30, "\\" * 31, "ab" * 30, "0x" + "f_" * 30, "1.1" * 20, "é" * 40, "a\\" * 25]
+    srcs = []
+    for r in runs:
+        srcs += [f"{vs} \"{r}", f"{vs} '{r}", f"{vs} {r}!", f"{bs} if '{r} {be}x", f"{bs} raw {be}{r}", f"{r}{bs}- raw"]
+    code = ("import sys, json, jinja2\n"
+            "from jinja2.exceptions import TemplateSyntaxError\n"
+            "kw, srcs = json.loads(sys.stdin.read())\n"
+            "env = jinja2.Environment(**kw)\n"
+            "for i, s in enumerate(srcs):\n"
+            "    print(i, flush=True)\n"
+            "    try:\n"
+            "        env.from_string(s)\n"
+            "    except TemplateSyntaxError:\n"
+            "        pass\n"
+            "    except Exception as ex:\n"
+            "        print('EXC', type(ex).__name__, flush=True)\n"
+            "print('END', flush=True)\n")
+    import json as _json
+    start = 0
+    t0 = time.time()
+    try:
+        p = subprocess.run([sys.executable, "-c", code], input=_json.dumps([CONFIGS[cfg], srcs]), capture_output=True, text=True, timeout=limit + 0.05 * len(srcs))
+        out = p.stdout
+    except subprocess.TimeoutExpired as ex:
+        out = ex.stdout.decode() if isinstance(ex.stdout, bytes) else (ex.stdout or "")
+        nums = [int(x) for x in out.split() if x.isdigit()]
+        i = nums[-1] if nums else 0
+        return (True, f"config {cfg}: loading {srcs[i][:50]!r} ({len(srcs[i])} characters) did not finish within {limit} s")
+    return (False, f"{len(srcs)} adversarial sources load or fail in {time.time() - t0:.1f} s")
+
+
+def replay_regex(w):
+    if isinstance(w, dict) and w.get("kind") == "regex-hang":
+        return native_regex_hang(w)
+    return native_lexer_search(w)
+
+
 def regex_facts(cfg):
     def run(task, tier, seed):
         lx = real_lexer(cfg)
@@ -285,6 +516,24 @@ def regex_facts(cfg):
                         # strip sign: groups()[2::2] must contain a non-None entry in every match
                         ok = all(any((g in sh) for g in range(3, f.ngroups + 1, 2)) for sh in f.shapes) and 1 in f.always()
                         row(f"{rid}.strip_sign", ok, "every match sets the text group and one of the groups 3,5,7,...")
+        # termination of the matcher itself: no compiled lexer regex has an ambiguous nested quantifier
+        seen_pat = {}
+        for state, rules in lx.rules.items():
+            for i, rule in enumerate(rules):
+                seen_pat.setdefault(id(rule.pattern), (f"{state}[{i}]", rule.pattern))
+        for nm_, pat in (("newline_re", L.newline_re), ("whitespace_re", L.whitespace_re), ("string_re", L.string_re), ("integer_re", L.integer_re),
+                         ("float_re", L.float_re), ("name_re", L.name_re), ("operator_re", L.operator_re)):
+            seen_pat[id(pat)] = (nm_, pat)
+        for rid, pat in sorted(seen_pat.values(), key=lambda x: x[0]):
+            try:
+                amb = ambiguous_nested_repeats(pat)
+            except FactUnknown as ex:
+                row(f"{rid}.no_ambiguous_nested_repeat", False, f"backtracking analysis: {ex}", undecided=True)
+                continue
+            row(f"{rid}.no_ambiguous_nested_repeat", not amb,
+                f"pattern {pat.pattern[:70]!r}: " + ("; ".join(amb[:2]) if amb else "every nested repeat is separated from the next iteration by a distinguishing character"))
+            if amb:
+                rs[-1].witness["kind"] = "regex-hang"
         # operator_re matches exactly the keys of `operators`
         lits = literal_alternatives(L.operator_re)
         row("operator_re.keys", lits is not None and lits == set(L.operators),
